@@ -463,6 +463,7 @@ class ASTTypeBuilder:
 
         return UnionType(
             name,
+            description=union_type.description,
             types=member_types,
             nodes=union_type.nodes + extensions,  # type: ignore
         )
